@@ -45,6 +45,10 @@ SCRATCH_ROOT = Path(os.environ.get("VERIF_SCRATCH", "/var/tmp"))
 MEM_BUDGET_GB = int(os.environ.get("VERIF_MEM_GB", "56"))
 CORES = int(os.environ.get("VERIF_CORES", str(os.cpu_count() or 4)))
 BUDGET_FILE = SCRATCH_ROOT / "verif-budget.json"
+# where evidence/ and replays/ are written: /verif for the registered checks; runs against
+# seeded changes (engine/mutcheck.py) and probes point it elsewhere so that they never
+# overwrite evidence about /repo itself
+OUT = Path(os.environ.get("VERIF_OUT", str(VERIF)))
 
 VERIF_BASE = 0x5EEDC0DE00000000      # harness/support.rs
 VERIF_FILL = 0xA5A55A5AC3C33C3C
@@ -664,6 +668,8 @@ def run_check(prop, tier, only, keep, seed):
                 continue
             if tier == "quick" and h.tier != "quick":
                 continue
+            if h.tier == "probe" and not only:
+                continue
             harnesses.append(h)
     if not harnesses:
         raise SystemExit("no harness selected")
@@ -852,7 +858,7 @@ def run_check(prop, tier, only, keep, seed):
                     v["known"] = k["raw"]
                     rec["known"].append(v)
                 else:
-                    rdir = VERIF / "replays" / h.prop
+                    rdir = OUT / "replays" / h.prop
                     rdir.mkdir(parents=True, exist_ok=True)
                     hsh = hashlib.sha1(json.dumps([h.name, lab, w]).encode()).hexdigest()[:10]
                     rpath = rdir / ("%s-%s.json" % (h.name, hsh))
@@ -1002,8 +1008,8 @@ def write_evidence(prop, tier, seed, results, files, wall, violations=0, note=""
         },
         "assumptions": assumptions,
     }
-    (VERIF / "evidence").mkdir(exist_ok=True)
-    (VERIF / "evidence" / ("%s.json" % prop)).write_text(json.dumps(ev, indent=1) + "\n")
+    (OUT / "evidence").mkdir(parents=True, exist_ok=True)
+    (OUT / "evidence" / ("%s.json" % prop)).write_text(json.dumps(ev, indent=1) + "\n")
 
 
 # --------------------------------------------------------------------------
